@@ -41,6 +41,7 @@ func runC01(a *A) {
 		a.ruleAdvanceBeforeUnlock(W, a.Method("window", "TumblingWindow", "checkAndTriggerWindows"))
 		a.ruleAdvanceBeforeUnlock(W, a.Method("window", "TumblingWindow", "Trigger"))
 	})
+	a.Rule("locks/guarded-by", 6, func() { a.lockRules("window", "TumblingWindow") })
 	a.Rule("whomay/data-writers", 5, func() {
 		W := a.Named("window", "TumblingWindow")
 		a.ruleWriters("whomay/data-writers", W, "data", map[string]string{
